@@ -300,6 +300,35 @@ def run_history(rec, bm_mod, cli, root, selection, hist):
     rec.outcome("history-ok")
 
 
+def lost_copy_check(rec, bm_mod, root):
+    """A complete backup from which a recorded copy (or its directory) has vanished: a new manager refuses or lists the
+    backup with every recorded file present - never with one missing."""
+    for selection in ((0, 1, 2), (0, 2)):
+        for lose in selection:
+            for whole_dir in (False, True):
+                make_tree(root, FILES3)
+                files = [os.path.join(root, FILES3[i][0]) for i in selection]
+                bm = bm_mod.BackupManager(root)
+                bm.create_backup(files, backup_name="default_back")
+                victim = bm.get_backup_path("default_back", os.path.join(root, FILES3[lose][0]))
+                if whole_dir:
+                    shutil.rmtree(os.path.dirname(victim))
+                else:
+                    os.remove(victim)
+                rec.n("evaluations")
+                rec.n("transitions", 2)
+                rec.n("distinct_nontrivial")
+                kind, state = backup_state(bm_mod, root)
+                if kind == "ok":
+                    for name, fs in state.items():
+                        missing = [k for k, v in fs.items() if v is None]
+                        recorded = len(fs)
+                        if missing or recorded < len(selection):
+                            rec.violation("C18:lost-copy:backup-listed-with-recorded-file-missing", selection=list(selection),
+                                          lost=FILES3[lose][0], whole_directory=whole_dir, missing=missing)
+                rec.outcome("lost-copy:" + kind)
+
+
 def worker_hist(rec, shard, nshards, scratch, depth, seed):
     import contextlib
     import io
@@ -315,6 +344,9 @@ def worker_hist(rec, shard, nshards, scratch, depth, seed):
             for hist in itertools.product(ops, repeat=d):
                 cases.append((selection, hist))
     root = os.path.join(scratch, f"hist{shard}")
+    if shard == 0:
+        with contextlib.redirect_stdout(io.StringIO()):
+            lost_copy_check(rec, bm_mod, os.path.join(scratch, "lost"))
     # the task filter looks at file names only: a data root whose own name mentions a task must behave the same
     root_task = os.path.join(scratch, f"h{shard}_task_stop_pilot")
     for ci in core.shard_order(len(cases), shard, nshards, seed):
